@@ -277,6 +277,21 @@ func (s *Sim) MergeNflogThen(b []byte, recs []Rec, after func(l *nflog.Log)) err
 	return err
 }
 
+// gcRec is the provider's store callback (the Silencer, as app.Run wires it) with a record of every provider GC that
+// deleted something (a GC run that deletes nothing calls no callback and changes nothing).
+type gcRec struct {
+	s     *Sim
+	inner mem.AlertStoreCallback
+}
+
+func (g *gcRec) PreStore(a *alert.Alert, existing bool) error { return g.inner.PreStore(a, existing) }
+func (g *gcRec) PostStore(a *alert.Alert, existing bool)      { g.inner.PostStore(a, existing) }
+func (g *gcRec) PostDelete(a *alert.Alert)                    { g.inner.PostDelete(a) }
+func (g *gcRec) PostGC(fps model.Fingerprints) {
+	g.s.add(Rec{Kind: "provgc", I: len(fps)})
+	g.inner.PostGC(fps)
+}
+
 // ---- recording stage in front of the pipeline ----
 
 type recStage struct {
@@ -356,7 +371,7 @@ func New(t interface{ Fatalf(string, ...any) }, o Options) *Sim {
 	s.Silencer = silence.NewSilencer(s.Silences, logger, rec)
 	ctx, cancel := context.WithCancel(context.Background())
 	s.cancel = cancel
-	s.Alerts, err = mem.NewAlerts(ctx, o.AlertGC, 0, s.Silencer, logger, rec, s.Reg, ff)
+	s.Alerts, err = mem.NewAlerts(ctx, o.AlertGC, 0, &gcRec{s: s, inner: s.Silencer}, logger, rec, s.Reg, ff)
 	if err != nil {
 		t.Fatalf("mem.NewAlerts: %v", err)
 	}
